@@ -332,11 +332,23 @@ def job_count(job):
             @alg.register
             def regf(a, b):
                 return a * b + (a | b)
+
+            # symbolically optimised registered functions of one and of three operands: OperatorDict.__call__ proper (two operands
+            # take the _call_binary shortcut), same once-per-pattern contract
+            @alg.register(symbolic=True)
+            def sreg1(a):
+                return a * a + a
+
+            @alg.register(symbolic=True)
+            def sreg3(a, b, c):
+                return a * b + (b | c)
             for _ in range(cfg.get('random', 6)):
                 ak, bk = rand_keys(rng, alg, 'sparse'), rand_keys(rng, alg, 'perm')
-                for name in job['ops']:
+                ck = tuple(sorted(rng.sample(range(N), min(N, 2))))
+                for name in list(job['ops']) + (['sreg1', 'sreg3'] if 'regf' in job['ops'] else []):
                     binary = name in ALL_BIN or name == 'regf'
-                    f = regf if name == 'regf' else getattr(alg, name)
+                    regd = {'regf': regf, 'sreg1': sreg1, 'sreg3': sreg3}
+                    f = regd[name] if name in regd else getattr(alg, name)     # (an empty operator dictionary is falsy)
                     n_pat += 1
 
                     def vals(kind, keys, pre):
@@ -352,7 +364,7 @@ def job_count(job):
                             return [sympy.Symbol(f'{pre}{k}') for k in keys]
                     first = True
                     kinds = ['int', 'float', 'Fraction', 'ndarray', 'sympy', 'int']
-                    if name == 'regf':
+                    if name in ('regf', 'sreg1', 'sreg3'):
                         kinds = ['int', 'float', 'Fraction', 'ndarray', 'sympy', 'int', 'sympy']
                     for kind in kinds:
                         a = mv_from(alg, ak, vals(kind, ak, 'a'))
@@ -360,7 +372,10 @@ def job_count(job):
                         before = dict(counter)
                         failed = False
                         try:
-                            f(a, b) if binary else f(a)
+                            if name == 'sreg3':
+                                f(a, b, mv_from(alg, ck, vals(kind, ck, 'c')))
+                            else:
+                                f(a, b) if binary else f(a)
                         except Exception:
                             failed = True
                         out['evaluations'] += 1
